@@ -378,7 +378,11 @@ func runConverge(r *vs.Rand, i int, seed uint64, out *vs.Out) {
 func runRollout(r *vs.Rand, i int, seed uint64, out *vs.Out, crash bool) {
 	cfg := rollingCfg(r)
 	replicas := 1 + r.Intn(4)
-	sc := newCleanScenario(cfg, replicas, "v1", "")
+	hookMode := ""
+	if cfg.Finalize && r.Chance(50) {
+		hookMode = "finalize-latest"
+	}
+	sc := newCleanScenario(cfg, replicas, "v1", hookMode)
 	defer sc.w.close()
 	var rounds []roundInfo
 	k := 0
@@ -407,9 +411,21 @@ func runRollout(r *vs.Rand, i int, seed uint64, out *vs.Out, crash bool) {
 		lagRound = changeAt + 1 + r.Intn(replicas+1)
 	}
 	cutRound, cutK := -1, -1
+	faultRound, faultKind := -1, [2]string{}
 	if crash {
 		cutRound = changeAt + r.Intn(2*replicas+2)
 		cutK = r.Intn(14)
+		if r.Chance(40) {
+			// instead of a crash: one request of that sync is answered with an error
+			faultRound, cutRound = cutRound, -1
+			faultKind = faultKinds[r.Intn(len(faultKinds))]
+		}
+	}
+	// sometimes the parent is deleted in the middle of the rollout (finalize hook configured): the finalize answers of
+	// the live parent revisions then differ ("finalize-latest" hook mode)
+	deleteAt := -1
+	if !crash && cfg.Finalize && r.Chance(60) {
+		deleteAt = changeAt + 1 + r.Intn(replicas+1)
 	}
 	limit := changeAt + 4*replicas + 10
 	for ; k < limit; k++ {
@@ -427,7 +443,16 @@ func runRollout(r *vs.Rand, i int, seed uint64, out *vs.Out, crash bool) {
 		if k == cutRound {
 			sc.w.sim.CutAfter = cutK
 		}
+		if k == faultRound {
+			sc.w.sim.FaultAt = map[int][2]string{cutK: faultKind}
+		}
+		if k == deleteAt {
+			sc.w.sim.Mutate(parentGroup, cfg.parentResource(), nsOfKey(sc.key), "p1", func(o map[string]interface{}) {
+				o["metadata"].(map[string]interface{})["deletionTimestamp"] = "2024-01-03T00:00:00Z"
+			})
+		}
 		_, ri := sc.round(i, seed, k, true, out, "rollout")
+		sc.w.sim.FaultAt = nil
 		if k == cutRound {
 			sc.w.sim.CutAfter = -1
 			// the process dies here: what it kept in memory is gone
@@ -436,7 +461,7 @@ func runRollout(r *vs.Rand, i int, seed uint64, out *vs.Out, crash bool) {
 		rounds = append(rounds, ri)
 	}
 	out.Line(vs.M{"kind": "rounds", "mode": map[bool]string{false: "rollout", true: "crash"}[crash], "case": i, "seed": seed, "cfg": cfg, "rounds": rounds,
-		"replicas": finalReplicas, "changeAt": changeAt, "secondChangeAt": second, "finalImage": final, "cutRound": cutRound, "cutK": cutK})
+		"replicas": finalReplicas, "changeAt": changeAt, "secondChangeAt": second, "finalImage": final, "cutRound": cutRound, "cutK": cutK, "faultRound": faultRound, "deleteAt": deleteAt})
 }
 
 var faultKinds = [][2]string{{"404", "NotFound"}, {"409", "Conflict"}, {"410", "Gone"}, {"422", "Invalid"}, {"500", "InternalError"}, {"504", "Timeout"}, {"409", "AlreadyExists"}}
